@@ -567,6 +567,10 @@ def run(prog, rep, tier):
     rep.rule('LOOP-stale-read', 'no per-item variable is read in a loop before the iteration assigns '
              'it when its only other bindings are inside other loops')
     check_stale_loop_reads(prog, rep, ['tenpy/networks/mps.py'])
+    from .c07 import check_scale_exponent
+    rep.rule('FORM-zero-sv / FORM-scale-exponent', 'form conversions multiply S**form_diff and keep '
+             'exactly vanishing singular values (enlarge_chi) zero under negative powers')
+    check_scale_exponent(prog, rep)
     return rep.finish(
         level='other',
         explanation='Coupled-update order of the per-site lists (%d transformation functions), '
